@@ -215,6 +215,7 @@ def _gridders(rng):
         "trend": lambda: verde.Trend(2),
         "knn_mean": lambda: verde.KNeighbors(k=3),
         "knn1": lambda: verde.KNeighbors(k=1),
+        "knn_k5_median": lambda: verde.KNeighbors(k=5, reduction=np.median),
         "linear": lambda: verde.Linear(),
         "cubic": lambda: verde.Cubic(),
         "vector": lambda: verde.VectorSpline2D(mindist=0.5),
@@ -252,6 +253,9 @@ def layout_pair(name, variant, seed):
         f = lambda x: x[perm]
     elif variant == "reshaped_2d":
         f = lambda x: x.reshape(3, 4)
+    elif variant == "few_rows_2d":
+        rows = [1, 2, 12, 6][seed % 4]  # row vector, two rows, column vector, ...: fewer rows than neighbours asked for
+        f = lambda x: x.reshape(rows, -1)
     elif variant == "fortran":
         f = lambda x: np.asfortranarray(x.reshape(3, 4))
         ref = fit_predict(name, (e.reshape(3, 4), nn.reshape(3, 4)), tuple(x.reshape(3, 4) for x in data) if isinstance(data, tuple) else data.reshape(3, 4), q)
@@ -314,7 +318,7 @@ class LayoutPair(Contract):
         return []
 
     def samples(self, rng, nrng, tier):
-        variants = ["permuted", "reshaped_2d", "fortran", "strided", "series", "extra_coord", "int_dtype", "partial_int_dtype", "partial_int_dtype", "query_1d", "linearity"]
+        variants = ["permuted", "reshaped_2d", "few_rows_2d", "fortran", "strided", "series", "extra_coord", "int_dtype", "partial_int_dtype", "partial_int_dtype", "query_1d", "linearity"]
         for name in _gridders(None):
             for variant in variants:
                 if variant == "linearity" and name not in LINEAR:
